@@ -8,7 +8,7 @@ TLog == ndJsonDeserialize(IOEnv.TRACE_FILE)
 Same(a, b) == IF a.t # b.t THEN FALSE
               ELSE IF a.t = "int" THEN a.neg = b.neg /\ a.mag = b.mag
               ELSE a.cls = b.cls /\ (a.cls = "nan" \/ a.neg = b.neg) /\ (a.cls # "fin" \/ (a.sig = b.sig /\ a.exp = b.exp))
-Check(x) == LET want == Decode(x.k, x.b, x.e, x.o)
+Check(x) == LET want == NumDecode(x.k, x.b, x.e, x.o)
             IN IF x.adv # Len(x.b) THEN "cursor"
                ELSE IF x.c # ResultClass(x.k) THEN "class"
                ELSE IF ~Same(x.r, want) THEN "value"
